@@ -129,6 +129,10 @@ where
             );
         }
         self.buffered_encoder.update_encoding(&mut self.af);
+        // the maximal extension computer takes the next free solver variable as its selector
+        let computer_selector_var = 1 + self.solver.borrow().n_vars();
+        self.buffered_encoder
+            .reserve_solver_vars_up_to(computer_selector_var);
         let encoder_ref = self.buffered_encoder.encoder();
         let constraints_encoder = LocalConstraintsEncoder {
             encoder: encoder_ref,
